@@ -1394,7 +1394,12 @@ package snaps
 //@ axiom occFmt_snapshot: forall s Str, i Int {occFmt(fn.snaps.snapshotOccurrenceFMT, s, i)}: occFmt(fn.snaps.snapshotOccurrenceFMT, s, i) == s + " - " + itoa(i)
 //@ axiom occFmt_standalone: forall s Str, i Int {occFmt(fn.snaps.standaloneOccurrenceFMT, s, i)}: occFmt(fn.snaps.standaloneOccurrenceFMT, s, i) == sprintf_d(s, i)
 // occKey: x is the key of an occurrence 1..n of a registered test (n = its per-run count), or the key the code adds for n itself.
-//@ specfun occKey(d Array<Str,Bool>, v Array<Str,Int>, count Int, f Fn, x Str) Bool = exists id Str, k Int: d[id] && ((1 <= k && k <= v[id] / count) || k == v[id] / count) && x == occFmt(f, id, k)
+//@ specfun occKey(nn Bool, d Array<Str,Bool>, v Array<Str,Int>, count Int, f Fn, x Str) Bool = exists id Str, k Int: nn && d[id] && ((1 <= k && k <= v[id] / count) || k == v[id] / count) && x == occFmt(f, id, k)
+// occKeyU: the same predicate as an opaque symbol; its definition is visible only where occurrences itself is verified
+//@ specfun occKeyU(nn Bool, d Array<Str,Bool>, v Array<Str,Int>, count Int, f Fn, x Str) Bool
+//@ mode ctl
+//@ axiom occKeyU_def: forall nn Bool, d Array<Str,Bool>, v Array<Str,Int>, count Int, f Fn, x Str {occKeyU(nn, d, v, count, f, x)}: occKeyU(nn, d, v, count, f, x) == occKey(nn, d, v, count, f, x)
+//@ mode all
 //@ func occurrences.formatter(s, i) returns (r)
 //@   nobody
 //@   assigns nothing
@@ -1407,18 +1412,19 @@ package snaps
 //@   ensures r != nil && fresh(r)
 //@   ensures [covers] forall id Str, k Int {occFmt(formatter, id, k)}: has(tests, id) && 1 <= k && k <= tests[id] / count ==> has(r, occFmt(formatter, id, k))
 //@   ensures [last] forall id Str {tests[id]}: has(tests, id) ==> has(r, occFmt(formatter, id, tests[id] / count))
-//@   ensures [exact] forall x Str {has(r, x)}: has(r, x) ==> occKey(dom(tests), vals(tests), count, formatter, x)
+//@   ensures [exact] forall x Str {has(r, x)}: has(r, x) ==> occKey(tests != nil, dom(tests), vals(tests), count, formatter, x)
+//@   ensures [iff] forall x Str {has(r, x)}: has(r, x) == occKeyU(tests != nil, dom(tests), vals(tests), count, formatter, x)
 //@   loop 1 invariant result != nil && !old(alloc)[result] && (tests != nil ==> old(alloc)[tests]) && count >= 1
 //@   loop 1 invariant forall r0 Ref: old(alloc)[r0] ==> domheap("map[string]int")[r0] == old(domheap("map[string]int"))[r0] && valheap("map[string]int")[r0] == old(valheap("map[string]int"))[r0] && domheap("map[string]struct{}")[r0] == old(domheap("map[string]struct{}"))[r0] && valheap("map[string]struct{}")[r0] == old(valheap("map[string]struct{}"))[r0]
 //@   loop 1 invariant forall id Str, k Int {occFmt(formatter, id, k)}: $visited[id] && 1 <= k && k <= tests[id] / count ==> has(result, occFmt(formatter, id, k))
 //@   loop 1 invariant forall id Str {tests[id]}: $visited[id] ==> has(result, occFmt(formatter, id, tests[id] / count))
-//@   loop 1 invariant forall x Str {has(result, x)}: has(result, x) ==> occKey(dom(tests), vals(tests), count, formatter, x)
+//@   loop 1 invariant forall x Str {has(result, x)}: has(result, x) ==> occKey(tests != nil, dom(tests), vals(tests), count, formatter, x)
 //@   loop 1.1 invariant result != nil && !old(alloc)[result] && (tests != nil ==> old(alloc)[tests]) && count >= 1 && 1 <= i && i <= counter + 1 && counter == tests[testID] / count
 //@   loop 1.1 invariant forall r0 Ref: old(alloc)[r0] ==> domheap("map[string]int")[r0] == old(domheap("map[string]int"))[r0] && valheap("map[string]int")[r0] == old(valheap("map[string]int"))[r0] && domheap("map[string]struct{}")[r0] == old(domheap("map[string]struct{}"))[r0] && valheap("map[string]struct{}")[r0] == old(valheap("map[string]struct{}"))[r0]
 //@   loop 1.1 invariant forall id Str, k Int {occFmt(formatter, id, k)}: $visited_1[id] && 1 <= k && k <= tests[id] / count ==> has(result, occFmt(formatter, id, k))
 //@   loop 1.1 invariant forall id Str {tests[id]}: $visited_1[id] ==> has(result, occFmt(formatter, id, tests[id] / count))
 //@   loop 1.1 invariant forall k Int {occFmt(formatter, testID, k)}: 1 <= k && k < i ==> has(result, occFmt(formatter, testID, k))
-//@   loop 1.1 invariant forall x Str {has(result, x)}: has(result, x) ==> occKey(dom(tests), vals(tests), count, formatter, x)
+//@   loop 1.1 invariant forall x Str {has(result, x)}: has(result, x) ==> occKey(tests != nil, dom(tests), vals(tests), count, formatter, x)
 //@   loop 1.1 invariant has(tests, testID)
 
 // ---- skip tracking (C08) -------------------------------------------------------------------------------
@@ -1462,8 +1468,12 @@ package snaps
 //@   ensures len(skippedTests.values) == old(len(skippedTests.values)) + 1 && skippedTests.values[old(len(skippedTests.values))] == tname(t)
 //@   ensures forall i in 0..old(len(skippedTests.values)): skippedTests.values[i] == old(skippedTests.values)[i]
 //@
+// skipSpec: the test of this id (its name is the id up to " - ") was recorded by snaps.Skip*, or is a descendant of a
+// recorded test, or the id does not match the -run filter
+//@ specfun skipSpec(testID Str, runOnly Str, vals Slice<Str>) Bool = (exists i in 0..len(vals): desc(beforeFirst(testID, " - "), vals[i])) || !reMatch(runOnly, testID)
 //@ func testSkipped(testID, runOnly) returns (r)
 //@   mode str
+//@   ensures [spec] r == skipSpec(testID, runOnly, skippedTests.values)
 //@   requires skippedTests != nil && quiescent
 //@   assigns nothing
 //@   let tn = beforeFirst(testID, " - ")
@@ -1563,6 +1573,7 @@ package snaps
 //@ lemma ISO_rec_found @C10 use=lines: forall G Str, h Str, T Str, G2 Str, h2 Str {recShape(G, h, T, G2), found(G2, h2)} {recShape(G, h, T, G2), found(G, h2)}: recShape(G, h, T, G2) && term(G) && term(T) && h != "---" && wf(G) && h2 != h && h2 != "" && h2 != "---" && lacksT(T, h2) ==> found(G2, h2) == found(G, h2)
 //@ lemma ISO_rec_pos @C10 use=lines: forall G Str, h Str, T Str, G2 Str, h2 Str {recShape(G, h, T, G2), hdrPos(G2, h2)} {recShape(G, h, T, G2), hdrPos(G, h2)}: recShape(G, h, T, G2) && term(G) && term(T) && h != "---" && wf(G) && h2 != h && h2 != "" && h2 != "---" && lacksT(T, h2) && found(G, h2) ==> hdrPos(G2, h2) == hdrPos(G, h2) && endPos(G2, h2) == endPos(G, h2)
 //@ lemma ISO_rec_bodyIs @C10 use=lines: forall G Str, h Str, T Str, G2 Str, h2 Str, T2 Str {recShape(G, h, T, G2), bodyIs(G2, h2, T2)} {recShape(G, h, T, G2), bodyIs(G, h2, T2)}: recShape(G, h, T, G2) && term(G) && term(T) && h != "---" && wf(G) && h2 != h && h2 != "" && h2 != "---" && lacksT(T, h2) && found(G, h2) && bodyIs(G, h2, T2) ==> bodyIs(G2, h2, T2)
+//@ lemma ISO_rec_body @C10 use=lines: forall G Str, h Str, T Str, G2 Str, h2 Str {recShape(G, h, T, G2), body(G2, h2)}: recShape(G, h, T, G2) && term(G) && term(T) && h != "---" && wf(G) && h2 != h && h2 != "" && h2 != "---" && lacksT(T, h2) && found(G, h2) ==> body(G2, h2) == body(G, h2)
 //@ specfun absentU(G Str, h Str) Bool
 //@ axiom absentU_def: forall G Str, h Str {absentU(G, h)}: absentU(G, h) == absent(G, h)
 //@ lemma ISO_rec_absent @C10 use=lines: forall G Str, h Str, T Str, G2 Str, h2 Str {recShape(G, h, T, G2), absentU(G2, h2)}: recShape(G, h, T, G2) && term(G) && term(T) && h2 != h && h2 != "" && h2 != "---" && lacksT(T, h2) && absentU(G, h2) ==> absentU(G2, h2)
@@ -1573,10 +1584,16 @@ package snaps
 //@ specfun idxOf(s Slice<Str>, x Str) Int
 //@ axiom idxOf_hit: forall s Slice<Str>, k Int {s[k]}: 0 <= k && k < len(s) ==> 0 <= idxOf(s, s[k]) && idxOf(s, s[k]) < len(s) && s[idxOf(s, s[k])] == s[k]
 //@ specfun inS(s Slice<Str>, x Str) Bool = 0 <= idxOf(s, x) && idxOf(s, x) < len(s) && s[idxOf(s, x)] == x
-// relKeepAll(F0, F1): every entry of F0 is found in F1 with the body it had in F0
-//@ specfun relKeepAll(F0 Str, F1 Str) Bool
-//@ specfun relKeepAllDef(F0 Str, F1 Str) Bool = forall e in 0..nent(F0): found(F1, tok(F0, ehdr(F0, e))) && body(F1, tok(F0, ehdr(F0, e))) == body(F0, tok(F0, ehdr(F0, e)))
-//@ axiom relKeepAll_def: forall F0 Str, F1 Str {relKeepAll(F0, F1)}: relKeepAll(F0, F1) == relKeepAllDef(F0, F1)
+// relClean(F0, F1, ...): what a rewrite by Clean may do to a file. For every entry of F0: if removal was not asked for,
+// or the entry is live (its id is an occurrence key of the registry of this file, or it is skip-protected), F1 holds the
+// entry with the body it had in F0; otherwise (removal asked for, entry stale) F1 has no line equal to its header.
+//@ specfun liveID(id Str, nn Bool, d Array<Str,Bool>, v Array<Str,Int>, count Int, runOnly Str, sk Slice<Str>) Bool = occKeyU(nn, d, v, count, fn.snaps.snapshotOccurrenceFMT, id) || skipSpec(id, runOnly, sk)
+//@ specfun relClean(F0 Str, F1 Str, update Bool, nn Bool, d Array<Str,Bool>, v Array<Str,Int>, count Int, runOnly Str, sk Slice<Str>) Bool
+//@ specfun relCleanDef(F0 Str, F1 Str, update Bool, nn Bool, d Array<Str,Bool>, v Array<Str,Int>, count Int, runOnly Str, sk Slice<Str>) Bool = forall e in 0..nent(F0):
+//@      ((!update || liveID(idOfHdr(tok(F0, ehdr(F0, e))), nn, d, v, count, runOnly, sk)) ==> found(F1, tok(F0, ehdr(F0, e))) && body(F1, tok(F0, ehdr(F0, e))) == body(F0, tok(F0, ehdr(F0, e))))
+//@   && ((update && !liveID(idOfHdr(tok(F0, ehdr(F0, e))), nn, d, v, count, runOnly, sk)) ==> absentU(F1, tok(F0, ehdr(F0, e))))
+//@ axiom relClean_def: forall F0 Str, F1 Str, update Bool, nn Bool, d Array<Str,Bool>, v Array<Str,Int>, count Int, runOnly Str, sk Slice<Str> {relClean(F0, F1, update, nn, d, v, count, runOnly, sk)}:
+//@      relClean(F0, F1, update, nn, d, v, count, runOnly, sk) == relCleanDef(F0, F1, update, nn, d, v, count, runOnly, sk)
 //@ lemma entry_kept @C07,C09,C10 use=lines: forall F Str, G Str, e Int, T Str {capPart(F, e, T, eend(F, e)), bodyIs(G, tok(F, ehdr(F, e)), T)}: entryForm(F) && 0 <= e && e < nent(F) && capOK(F, e, T) && found(G, tok(F, ehdr(F, e))) && bodyIs(G, tok(F, ehdr(F, e)), T)
 //@      ==> body(G, tok(F, ehdr(F, e))) == body(F, tok(F, ehdr(F, e)))
 //@ mode str
@@ -1593,8 +1610,8 @@ package snaps
 //@   ensures [nonsnap] forall p Str {fsc[p]}: (forall k in 0..len(used): used[k] != p) ==> fsc[p] == old(fsc)[p]
 //@   ensures [noop] !update && !sort ==> fswrites == old(fswrites) && fsc == old(fsc)
 //@   ensures [only_used] forall p Str {fsc[p]}: (forall k in 0..len(used): used[k] != p) ==> fsc[p] == old(fsc)[p]
-//@   ensures [content_kept] forall kk in 0..len(used): (forall k2 in 0..len(used): k2 != kk ==> used[k2] != used[kk]) && entryForm(old(fsc)[used[kk]]) && !update && err == nil
-//@        ==> fsc[used[kk]] == old(fsc)[used[kk]] || relKeepAll(old(fsc)[used[kk]], fsc[used[kk]])
+//@   ensures [content_kept] forall kk in 0..len(used): (forall k2 in 0..len(used): k2 != kk ==> used[k2] != used[kk]) && entryForm(old(fsc)[used[kk]]) && err == nil
+//@        ==> fsc[used[kk]] == old(fsc)[used[kk]] || relClean(old(fsc)[used[kk]], fsc[used[kk]], update, registry[used[kk]] != nil, dom(registry[used[kk]]), vals(registry[used[kk]]), count, runOnly, skippedTests.values)
 //@   let mapsKept = forall r0 Ref: old(alloc)[r0] ==> domheap("map[string]struct{}")[r0] == old(domheap("map[string]struct{}"))[r0] && valheap("map[string]struct{}")[r0] == old(valheap("map[string]struct{}"))[r0]
 //@         && domheap("map[string]string")[r0] == old(domheap("map[string]string"))[r0] && valheap("map[string]string")[r0] == old(valheap("map[string]string"))[r0]
 //@         && domheap("map[string]int")[r0] == old(domheap("map[string]int"))[r0] && valheap("map[string]int")[r0] == old(valheap("map[string]int"))[r0]
@@ -1607,12 +1624,13 @@ package snaps
 //@   loop 1 invariant mapsKept && gate && locals && 0 <= $idx_1 && len(testIDs) == 0
 //@   loop 1 invariant [reset] wbuf[data] == "" && (forall id Str {has(tests, id)}: !has(tests, id))
 //@   let unvisited = forall p Str {fsc[p]}: (forall k2 in 0..$idx_1: used[k2] != p) ==> fsc[p] == old(fsc)[p]
-//@   let doneOK = forall kk in 0..$idx_1: (forall k2 in 0..len(used): k2 != kk ==> used[k2] != used[kk]) && entryForm(old(fsc)[used[kk]]) && !update
-//@        ==> fsc[used[kk]] == old(fsc)[used[kk]] || relKeepAll(old(fsc)[used[kk]], fsc[used[kk]])
+//@   let doneOK = forall kk in 0..$idx_1: (forall k2 in 0..len(used): k2 != kk ==> used[k2] != used[kk]) && entryForm(old(fsc)[used[kk]])
+//@        ==> fsc[used[kk]] == old(fsc)[used[kk]] || relClean(old(fsc)[used[kk]], fsc[used[kk]], update, registry[used[kk]] != nil, dom(registry[used[kk]]), vals(registry[used[kk]]), count, runOnly, skippedTests.values)
 //@   loop 1 invariant [visited] unvisited && doneOK
 //@   loop 1.1 invariant mapsKept && gate && locals && 0 <= $idx_1 && $idx_1 < len(used) && snapPath == used[$idx_1]
 //@   loop 1.1 invariant f != nil && !old(alloc)[f] && fpath[f] == snapPath && s != nil && !old(alloc)[s] && s != f && s != data && f != data && scunb[s] && scsrc[s] == fsc[snapPath] && 0 <= scpos[s] && scpos[s] <= ntok(scsrc[s])
 //@   loop 1.1 invariant registeredTests != nil
+//@   loop 1.1 invariant [regs] (forall x Str {has(registeredTests, x)}: has(registeredTests, x) == occKeyU(registry[snapPath] != nil, dom(registry[snapPath]), vals(registry[snapPath]), count, fn.snaps.snapshotOccurrenceFMT, x))
 //@   loop 1.1 invariant [no_drop_without_update] kept || scpos[s] == ntok(scsrc[s])
 //@   let F = scsrc[s]
 //@   let n = len(testIDs)
@@ -1621,29 +1639,33 @@ package snaps
 //@   loop 1.1 invariant [cap] entryForm(F) ==> 0 <= n && n <= nent(F) && gapLo(F, n) <= pos && pos <= gapHi(F, n)
 //@       && (forall k in 0..n: "[" + testIDs[k] + "]" == tok(F, ehdr(F, k)) && testIDs[k] == idOfHdr(tok(F, ehdr(F, k))) && isLine(testIDs[k]))
 //@       && (forall k in 0..n: has(tests, testIDs[k]) ==> capOK(F, k, tests[testIDs[k]]))
-//@       && (forall k in 0..n: !has(tests, testIDs[k]) ==> update)
+//@       && (forall k in 0..n: has(tests, testIDs[k]) == (!update || has(registeredTests, testIDs[k]) || skipSpec(testIDs[k], runOnly, skippedTests.values)))
 //@       && (forall id Str {has(tests, id)}: has(tests, id) ==> 0 <= eidx(F, "[" + id + "]") && eidx(F, "[" + id + "]") < n && testIDs[eidx(F, "[" + id + "]")] == id)
 //@   loop 1.1.1 invariant mapsKept && gate && locals && 0 <= $idx_1 && $idx_1 < len(used) && snapPath == used[$idx_1]
 //@   loop 1.1.1 invariant f != nil && !old(alloc)[f] && fpath[f] == snapPath && s != nil && !old(alloc)[s] && s != f && s != data && f != data && scunb[s] && scsrc[s] == fsc[snapPath] && 0 <= scpos[s] && scpos[s] <= ntok(scsrc[s])
 //@   loop 1.1.1 invariant registeredTests != nil && len(testIDs) >= 1 && testIDs[len(testIDs) - 1] == testID
+//@   loop 1.1.1 invariant [regs] (forall x Str {has(registeredTests, x)}: has(registeredTests, x) == occKeyU(registry[snapPath] != nil, dom(registry[snapPath]), vals(registry[snapPath]), count, fn.snaps.snapshotOccurrenceFMT, x))
 //@   loop 1.1.1 invariant !update ==> (forall k in 0..len(testIDs) - 1: has(tests, testIDs[k]))
 //@   loop 1.1.1 invariant [cap] entryForm(F) ==> 1 <= n && n <= nent(F) && ehdr(F, n - 1) < pos && pos <= eend(F, n - 1)
 //@       && (forall k in 0..n: "[" + testIDs[k] + "]" == tok(F, ehdr(F, k)) && testIDs[k] == idOfHdr(tok(F, ehdr(F, k))) && isLine(testIDs[k]))
 //@       && (forall k in 0..n - 1: has(tests, testIDs[k]) ==> capOK(F, k, tests[testIDs[k]]))
-//@       && (forall k in 0..n - 1: !has(tests, testIDs[k]) ==> update)
+//@       && (forall k in 0..n - 1: has(tests, testIDs[k]) == (!update || has(registeredTests, testIDs[k]) || skipSpec(testIDs[k], runOnly, skippedTests.values)))
+//@       && (!update || has(registeredTests, testID) || skipSpec(testID, runOnly, skippedTests.values))
 //@       && (forall id Str {has(tests, id)}: has(tests, id) ==> 0 <= eidx(F, "[" + id + "]") && eidx(F, "[" + id + "]") < n - 1 && testIDs[eidx(F, "[" + id + "]")] == id)
 //@       && capPart(F, n - 1, wbuf[data], pos)
 //@   loop 1.2 invariant mapsKept && fsxKept && locals && 0 <= $idx_1 && $idx_1 < len(used) && snapPath == used[$idx_1] && f != nil && !old(alloc)[f] && fpath[f] == snapPath && f != data
 //@   let G = fsc[snapPath]
 //@   loop 1.2 invariant [visited] (forall p Str {fsc[p]}: p != snapPath && (forall k2 in 0..$idx_1: used[k2] != p) ==> fsc[p] == old(fsc)[p]) && doneOK
 //@   loop 1.2 invariant [open] s != nil && ((forall k2 in 0..$idx_1: used[k2] != snapPath) ==> F == old(fsc)[snapPath]) && foff[f] == len(G)
+//@   loop 1.2 invariant [regs] (forall x Str {has(registeredTests, x)}: has(registeredTests, x) == occKeyU(registry[snapPath] != nil, dom(registry[snapPath]), vals(registry[snapPath]), count, fn.snaps.snapshotOccurrenceFMT, x))
 //@   loop 1.2 invariant [emit] entryForm(F) ==> n == nent(F) && term(G) && wf(G) && 0 <= $idx && $idx <= n
 //@       && (forall k in 0..n: isLine(testIDs[k]) && 0 <= eidx(F, "[" + testIDs[k] + "]") && eidx(F, "[" + testIDs[k] + "]") < nent(F) && tok(F, ehdr(F, eidx(F, "[" + testIDs[k] + "]"))) == "[" + testIDs[k] + "]")
 //@       && (forall k1 in 0..n: forall k2 in 0..n: k1 != k2 ==> testIDs[k1] != testIDs[k2])
 //@       && (forall k in 0..n: has(tests, testIDs[k]) ==> capOK(F, eidx(F, "[" + testIDs[k] + "]"), tests[testIDs[k]]))
 //@       && (forall e in 0..nent(F): inS(testIDs, idOfHdr(tok(F, ehdr(F, e)))))
-//@       && (forall k in 0..n: !has(tests, testIDs[k]) ==> update)
-//@       && (forall k in 0..$idx: has(tests, testIDs[k]) ==> found(G, "[" + testIDs[k] + "]") && bodyIs(G, "[" + testIDs[k] + "]", tests[testIDs[k]]))
+//@       && (forall k in 0..n: has(tests, testIDs[k]) == (!update || has(registeredTests, testIDs[k]) || skipSpec(testIDs[k], runOnly, skippedTests.values)))
+//@       && (forall k in 0..$idx: !has(tests, testIDs[k]) ==> absentU(G, "[" + testIDs[k] + "]"))
+//@       && (forall k in 0..$idx: has(tests, testIDs[k]) ==> found(G, "[" + testIDs[k] + "]") && body(G, "[" + testIDs[k] + "]") == body(F, "[" + testIDs[k] + "]"))
 //@       && (forall k in $idx..n: absentU(G, "[" + testIDs[k] + "]"))
 //@   loop 1.2 invariant (update || sort) && (forall p Str {fsc[p]}: (forall k in 0..len(used): used[k] != p) ==> fsc[p] == old(fsc)[p])
 
